@@ -1,4 +1,7 @@
+mod asm;
+mod gen_asm;
 mod gen_isa;
+mod prog;
 mod util;
 
 fn main() {
@@ -12,6 +15,8 @@ fn main() {
     match (argv[1].as_str(), argv[2].as_str()) {
         ("gen", "isa") => gen_isa::main(&args),
         ("replay", "isa") => gen_isa::replay(&args),
+        ("gen", "asm") => gen_asm::main(&args),
+        ("replay", "asm") => gen_asm::replay(&args),
         (a, b) => {
             eprintln!("unknown command {a} {b}");
             std::process::exit(2);
